@@ -493,6 +493,11 @@ pub struct C12Case {
     /// variation of the connection prologue (see `connect_and_run_v`)
     #[serde(default)]
     pub prologue: u8,
+    /// the Context served an earlier connection whose CONNACK announced this Maximum Packet Size
+    /// (0 = none announced); second component: 0 = the Context is simply set up again, 1 = the
+    /// hook records the disconnection and the session has expired, 2 = recorded and still alive
+    #[serde(default)]
+    pub previous: Option<(u32, u8)>,
 }
 
 pub struct C12;
@@ -531,10 +536,32 @@ fn c12_op() -> BoxedStrategy<OpSpec> {
 
 const C12_R: u16 = 2;
 
-fn c12_world(m: Option<u32>, client_max: Option<u32>, prologue: u8) -> Result<World, String> {
+fn c12_world(m: Option<u32>, client_max: Option<u32>, prologue: u8, previous: Option<(u32, u8)>) -> Result<World, String> {
     let mut w = World::new();
     let connack = rc::Connack { maximum_packet_size: m, receive_maximum: Some(C12_R), ..Default::default() };
-    let spec = ConnectSpec { maximum_packet_size: client_max, ..Default::default() };
+    let mut spec = ConnectSpec { maximum_packet_size: client_max, ..Default::default() };
+    if let Some((m_prev, how)) = previous {
+        // an earlier connection with another (or no) limit, lost by end-of-stream
+        let plan = WritePlan::default();
+        if how == 2 {
+            spec.session_expiry = Some(u32::MAX);
+        }
+        let first = rc::Connack { maximum_packet_size: if m_prev == 0 { None } else { Some(m_prev) }, ..Default::default() };
+        connect_and_run(&mut w, spec.clone(), &first, &plan)?;
+        w.tick();
+        w.reader.set_eof();
+        settle(&mut w, &plan, false);
+        if w.run_result.is_none() {
+            return Err("earlier connection: run() did not return at end-of-stream".into());
+        }
+        if how > 0 && !w.mark_disconnected(5) {
+            return Err("harness: context not available".into());
+        }
+        if !w.set_up_again() {
+            return Err("harness: context not available".into());
+        }
+        spec.clean_start = Some(how != 2);
+    }
     connect_and_run_v(&mut w, spec, &connack, &WritePlan::default(), prologue)?;
     Ok(w)
 }
@@ -556,12 +583,18 @@ impl Property for C12 {
                 1 => Just(MChoice::Absent),
             ],
         )
-            .prop_map(|(op, m)| C12Case { op, m, client_max: None, history: None, prologue: 0 })
+            .prop_map(|(op, m)| C12Case { op, m, client_max: None, history: None, prologue: 0, previous: None })
             .boxed();
         let single = (s, prop_oneof![2 => Just(None), 1 => (8u32..64).prop_map(Some), 1 => Just(Some(1u32))], prologue_variant())
             .prop_map(|(mut c, cm, pv)| {
                 c.client_max = cm;
-                c.prologue = pv;
+                c.prologue = pv & 63;
+                c
+            })
+            .boxed();
+        let single = (single, proptest::option::weighted(0.35, (prop_oneof![Just(0u32), Just(1u32), 5u32..40, Just(100_000u32)], 0u8..3)))
+            .prop_map(|(mut c, p)| {
+                c.previous = p;
                 c
             })
             .boxed();
@@ -579,6 +612,7 @@ impl Property for C12 {
                 m: MChoice::Absent,
                 client_max: None,
                 prologue: 0,
+                previous: None,
                 history: Some(Scenario { receive_max, max_packet_size: Some(m), id_offset, prologue, events }),
             });
         prop_oneof![3 => single, 1 => hist].boxed()
@@ -608,7 +642,7 @@ impl Property for C12 {
         }
         let plan = WritePlan::default();
         // (1) measure L
-        let mut a = match c12_world(None, None, 0) {
+        let mut a = match c12_world(None, None, 0, None) {
             Ok(w) => w,
             Err(e) => return Outcome::fail("HARNESS/prologue", e),
         };
@@ -641,7 +675,7 @@ impl Property for C12 {
         o.class(case.op.kind());
         o.class(format!("L-{}", match l { 0..=127 => "<=127", 128..=16383 => "<=16383", _ => ">16383" }));
         // (2) the same request under M
-        let mut w = match c12_world(m, case.client_max, case.prologue) {
+        let mut w = match c12_world(m, case.client_max, case.prologue, case.previous) {
             Ok(w) => w,
             Err(e) => return Outcome::fail("HARNESS/prologue", e),
         };
